@@ -876,6 +876,10 @@ impl Engine for CrashEngine {
         }
         out.into_iter().map(|c| serde_json::to_value(&c).unwrap()).collect()
     }
+    fn hang_is_violation(&self) -> bool {
+        // after an injected fault the statement promises memory safety only
+        false
+    }
     fn abort_is_violation(&self, _body: &serde_json::Value, class: &str) -> bool {
         class.starts_with("abort_unsafe") || class.starts_with("abort_heap") || class.starts_with("abort_signal")
     }
